@@ -109,13 +109,6 @@ type c13Noop struct{}
 
 func (c13Noop) Handle(timing.Event) error { return nil }
 
-func c13OpClass(op string) string {
-	if strings.HasPrefix(op, "at") {
-		return "schedulewakeat"
-	}
-	return op
-}
-
 func c13Exec(hist []c13Op) (string, bool, []lib.Problem) {
 	if len(hist) == 0 {
 		return "init", false, nil
@@ -312,7 +305,7 @@ func init() {
 					return out
 				},
 				Exec:     c13Exec,
-				MaxDepth: lib.Pick(c, 8, 11),
+				MaxDepth: lib.Pick(c, 9, 11), // including the variant-selecting first operation
 				Workers:  1,
 			})
 		},
